@@ -52,7 +52,7 @@ func (p *Unsuback) Unpack(r io.Reader) error {
 		return err
 	}
 	if IsVersion3X(p.Version) {
-		return nil
+		return endOfPacket(bufr)
 	}
 
 	p.Properties = &Properties{}
